@@ -6,10 +6,10 @@ mkdir -p .work
 out=.work/seed_matrix.txt
 seeds="$@"; [ -z "$seeds" ] && seeds=$(ls seeded)
 for sd in $seeds; do
-  own=$(echo $sd | sed 's/[ab]$//')
+  own=$(echo $sd | cut -c1-3)
   extra=""
   case $sd in
-    C07a) extra="C01";; C07b) extra="C05";; C12a) extra="C04";; C13a) extra="C10";; C13b) extra="C14";; C15b) extra="C18";; C04b) extra="C18";; C09b) extra="C18";; C20b) extra="C04";;
+    C07a) extra="C01";; C13c) extra="C14";; C07b) extra="C05";; C12a) extra="C04";; C13a) extra="C10";; C13b) extra="C14";; C15b) extra="C18";; C04b) extra="C18";; C09b) extra="C18";; C20b) extra="C04";;
   esac
   for p in $own $extra; do
     s=$(date +%s)
